@@ -78,3 +78,16 @@ func claimMsg(w wd, proof [][]byte, outputIndex uint64, submitter string, versio
 func balanceOf(w *world.L1, ctx sdk.Context, addr sdk.AccAddress, denom string) int64 {
 	return w.BK.GetBalance(ctx, addr, denom).Amount.Int64()
 }
+
+// mkTreeImpl builds the tree the way a prover using the repository's own helper functions would
+// (leaf, node and output-root functions of x/ophost/types). On an unchanged tree it equals mkTree.
+func mkTreeImpl(name string, ws []wd, version byte) *wtree {
+	var leaves [][32]byte
+	for _, w := range ws {
+		leaves = append(leaves, ophosttypes.GenerateWithdrawalHash(w.Bridge, w.Seq, w.From, w.To, w.Denom, w.Amount))
+	}
+	t := ref.BuildTreeWith(leaves, ophosttypes.GenerateNodeHash)
+	bh := sha256.Sum256([]byte("blockhash/" + name))
+	sr := t.Root()
+	return &wtree{Name: name, Ws: ws, Tree: t, Version: version, BlockHash: bh[:], StorageRoot: sr, OutputRoot: ophosttypes.GenerateOutputRoot(version, sr[:], bh[:])}
+}
